@@ -127,6 +127,10 @@ func (x *Exec) collectWrites(ws *writeSet, nodes ...ast.Node) {
 				}
 				return true
 			}
+			if t != nil && isPointer(t) {
+				addName("H_" + shortTypeName(elemOfPointer(t)) + "_val")
+				return true
+			}
 			return false
 		}
 		return false
@@ -190,6 +194,10 @@ func (x *Exec) collectWrites(ws *writeSet, nodes ...ast.Node) {
 							}
 						}
 					}
+				}
+				if f, ok := x.calleeObj(a).(*types.Func); ok && f.FullName() == "(*sync.Pool).Get" {
+					addName("$alloc")
+					break
 				}
 				if !isClosure && x.callMayWriteHeap(a) {
 					if !x.callWriteNames(a, addName) {
